@@ -182,7 +182,8 @@ impl C15 {
             ctx.outcome("layer_returned");
             let o = order.table.0.clone();
             let u = unv.0.clone();
-            let ok_ff = o.iter().all(|&x| x < order.target.max(1)) && (order.target == p.e.len());
+            // the layer function must be a well-formed finite function (its codomain is not prescribed)
+            let ok_ff = o.iter().all(|&x| x < order.target);
             ctx.check(ok_ff, &format!("layer/finite-function/value/{}", cls), || {
                 json!({"input": input(), "observed": format!("table={:?} target={}", o, order.target)})
             });
